@@ -22,6 +22,7 @@ pub fn prices() -> ExUnitPrices {
     ExUnitPrices { mem_price: ri(), step_price: ri() }
 }
 /// symbolic byte string of concrete length N
+#[cfg(kani)]
 pub fn any_bytes<const N: usize>() -> Bytes {
     let a: [u8; N] = kani::any();
     Bytes::from(a.to_vec())
